@@ -23,6 +23,9 @@ type SimTransport struct {
 	IP4   net.IP // what a wildcard / empty host binds to
 	IP6   net.IP
 	Hosts map[string]string // name -> ip literal
+	// OnDial is told of every outgoing TCP connection made through this transport, with the
+	// local address the caller asked for (a relay's outgoing connection names its relayed address)
+	OnDial func(local *net.TCPAddr, c *TCPConn)
 }
 
 var _ transport.Net = (*SimTransport)(nil)
@@ -133,6 +136,10 @@ func (t *SimTransport) dialFrom(network string, local net.Addr, address string) 
 	c, err := t.N.Dial(t.Role+"-out", &net.TCPAddr{IP: lip, Port: lport}, &net.TCPAddr{IP: ip, Port: port}, 30*time.Second)
 	if err != nil {
 		return nil, err
+	}
+	if t.OnDial != nil {
+		la, _ := local.(*net.TCPAddr)
+		t.OnDial(la, c)
 	}
 	return shimConn(c), nil
 }
